@@ -36,7 +36,7 @@ const LOG_PASS: [&str; 14] = ["C02", "C03", "C04", "C05", "C06", "C07", "C08", "
 /// checks whose ceremonies are run once more with a user who takes an hour to answer every prompt
 const SLOW_PASS: [&str; 8] = ["C02", "C03", "C04", "C07", "C08", "C09", "C11", "C17"];
 /// checks whose subject can be used by several OS threads at once
-const THREAD_PASS: [&str; 4] = ["C01", "C02", "C03", "C10"];
+const THREAD_PASS: [&str; 5] = ["C01", "C02", "C03", "C10", "C19"];
 /// build variant of this binary: "" = default features, optimised, debug assertions and overflow
 /// checks on; or the library's optional cargo feature; or the optimised build without assertions
 pub fn variant() -> &'static str {
@@ -154,6 +154,9 @@ fn main() {
         std::process::exit(if fs.iter().any(|f| known.lookup(&id, &f.key).is_none()) { 1 } else { 0 });
     }
 
+    // the passes (log, slow user, environment) repeat the exploration in another *mode*; in the
+    // thorough tier they repeat the quick tier's exploration (the depth is the first run's business)
+    let pass_ctx = Ctx { id: ctx.id.clone(), tier: Tier::Quick, seed: ctx.seed, threads: ctx.threads, root: ctx.root.clone(), start: ctx.start };
     let mut run = match crate::core::par::catch(|| (prop.run)(&ctx)) {
         Ok(Ok(r)) => r,
         Ok(Err(e)) => machinery(&e),
@@ -170,7 +173,7 @@ fn main() {
         // the log pass: the same exploration with a logger installed at Trace.  Findings already
         // seen without the logger are the same defects; new ones carry the prefix log=trace/.
         set_trace(true);
-        let second = crate::core::par::catch(|| (prop.run)(&ctx));
+        let second = crate::core::par::catch(|| (prop.run)(&pass_ctx));
         set_trace(false);
         match second {
             Ok(Ok(r2)) => {
@@ -201,7 +204,7 @@ fn main() {
             machinery(&e);
         }
         crate::drivers::set_slow_user(3601);
-        let again = crate::core::par::catch(|| (prop.run)(&ctx));
+        let again = crate::core::par::catch(|| (prop.run)(&pass_ctx));
         crate::drivers::set_slow_user(0);
         match again {
             Ok(Ok(r2)) => {
@@ -235,7 +238,7 @@ fn main() {
                     continue;
                 }
                 std::env::set_var(name, value);
-                let again = crate::core::par::catch(|| (prop.run)(&ctx));
+                let again = crate::core::par::catch(|| (prop.run)(&pass_ctx));
                 std::env::remove_var(name);
                 match again {
                     Ok(Ok(r2)) => {
